@@ -84,6 +84,12 @@ def handle (st : St) : List String → St × String
             let (d', w) := d.save rdf
             ({ docs := put st.docs slot d', last := w }, "ok " ++ encFiles (zipOrder w))
           | none => (st, "bad-op")
+        | "savep", [rdf] => match decBlob rdf with
+          -- pretty save; the pretty serialisation of blob k is written k + 1000000 (the harness checks that it is blob k up to layout)
+          | some rdf =>
+            let (d', w) := d.savePretty (fun b => match b with | .raw k => .raw (k + 1000000) | b => b) rdf
+            ({ docs := put st.docs slot d', last := w }, "ok " ++ encFiles (zipOrder w))
+          | none => (st, "bad-op")
         | "reopen", [slot2] => match slot2.toNat? with
           | some s2 => ({ st with docs := put st.docs s2 (Doc.ofBytes st.last) }, "ok")
           | none => (st, "bad-op")
